@@ -39,7 +39,7 @@ ID = "C18"
 LEVEL = "exploration"
 RULE = ("generated stack shapes of depth 1-6: each position a recorder layer class, a recorder instance, an explicit "
         "YowParallelLayer of 1-4 recorder classes or a plain tuple (implicit group); both order conventions; built through the "
-        "YowStack constructor or a generated YowStackBuilder script (push/pop); recorders pass, drop or duplicate data, optionally "
+        "YowStack constructor or a generated YowStackBuilder script (push/pop); recorders pass, drop or duplicate data or keep the base class's pass-through send/receive, optionally "
         "consume the event (by overriding onEvent or through @EventCallback), optionally expose an interface and optionally derive "
         "from the class of an earlier recorder (lookups are by exact class); one data "
         "transfer in each direction and one event per case with emitter = any layer, any group member or the stack object, "
@@ -99,6 +99,10 @@ def make_recorder(spec, base=None):
             self.interface = YowLayerInterface(self)
 
     ns = {"__init__": __init__, "send": send, "receive": receive, "__str__": lambda self: name, "NAME": name}
+    if mode == "inherit":
+        # a layer that keeps the base class's pass-through send/receive (it sees events, but data crosses it unrecorded and unchanged)
+        ns["send"] = YowLayer.send
+        ns["receive"] = YowLayer.receive
     if hook == "callback":
         @EventCallback(EV)
         def on_ev(self, ev):
@@ -165,6 +169,8 @@ def model_data(positions, direction):
 
     def out_of(m, d):
         mode = m.get("mode", "pass")
+        if mode == "inherit":
+            return [d]
         if mode == "drop":
             return []
         if mode == "dup":
@@ -178,7 +184,8 @@ def model_data(positions, direction):
             far.append(d)
             return
         for m in positions[order[i]]:
-            per_layer.setdefault(m["n"], []).append(d)
+            if m.get("mode") != "inherit":
+                per_layer.setdefault(m["n"], []).append(d)
             for o in out_of(m, d):
                 step(i + 1, o)
     step(0, ())
@@ -679,7 +686,7 @@ def shape_strategy():
         def member():
             counter[0] += 1
             return {"n": "L%d" % counter[0],
-                    "mode": draw(st.sampled_from(["pass", "pass", "pass", "pass", "drop", "dup"])),
+                    "mode": draw(st.sampled_from(["pass", "pass", "pass", "pass", "drop", "dup", "inherit", "inherit"])),
                     "consume": draw(st.sampled_from([False, False, False, True])),
                     "iface": draw(st.booleans()),
                     "hook": draw(st.sampled_from(["override", "override", "callback"])),
